@@ -22,6 +22,8 @@
   zero-length arrays — in particular (`coeffRep`) for every value of the REGENERATED shape of
   `eval.CoeffSet` — and EVERY list of target names (any subset, any order, duplicates, unknown names).
 -/
+import ChessVerif.Model.Guards.Eval
+import ChessVerif.Model.Guards.TunerVector
 import ChessVerif.Proofs.TunerVector
 import ChessVerif.Proofs.TunerVectorWrite
 import ChessVerif.Proofs.EvalEnvelope
